@@ -452,7 +452,7 @@ Fixpoint slex_f (fuel : nat) (ls : slex) (src : list ch) (lineno : Z) : res slex
                            let '(args, s4, ln4, ls') := ra in
                            loop n' ls' s4 ln4 harmony (acc ++ [SCall id args])
                        | Some _ => loop n' ls s2 ln2 harmony acc          (* Empty token "Could not execute" *)
-                       | None => loop n' (read_error_cmd_s ls s2 ln2 word) s2 ln2 harmony acc
+                       | None => loop n' (read_error_cmd_s ls s2 ln word) s2 ln2 harmony acc   (* reported on the line of the word *)
                        end
                end
            else if (c =? 113) || (c =? 118) then Unsupported U_SCMD      (* vAdd / qAdd / q2Add *)
